@@ -3,6 +3,8 @@
 # Confirms a seeded change by hand-independent steps, in scratch worktrees under /tmp:
 #  1. the patch applies to /repo HEAD, the tree configures, builds and `make check` reports 257 passes;
 #  2. the demonstration fails with the patch and passes without it (same demo, unpatched worktree).
+# Environment: CS_LINK=dr (also link libdr, run with the profiler's .libs on LD_LIBRARY_PATH),
+#              CS_LINK=wrap (link-time pthread wrapping: @myth-ld.opts -lmyth-ld), CS_ENV="K=V ..." extra environment of the demo.
 # Prints one CONFIRM line; removes the worktrees.
 set -u
 id=$1; nw=$2; runs=$3; shift 3
@@ -18,11 +20,18 @@ if [ ! -d $U/src/.libs ]; then
   rm -rf $U; git -C /repo worktree add -q --detach $U HEAD && (cd $U && ./configure >/dev/null 2>&1 && make -j8 >/dev/null 2>&1)
 fi
 demo=$S/demo.c; cc=gcc; [ -f $S/demo.cc ] && { demo=$S/demo.cc; cc=g++; }
-$cc -O2 -g -I$P/include -I$P/src $demo -o /tmp/cs-$id-demo -L$P/src/.libs -lmyth -lpthread -ldl 2>/tmp/cs-$id-cc.log || { echo "CONFIRM $id demo-build-failed"; exit 2; }
+case "${CS_LINK:-}" in
+  dr)   LINK="-I$P/src/profiler -L$P/src/profiler/.libs -ldr -L$P/src/.libs -lmyth -lpthread -ldl"; LSUB="src/profiler/.libs:" ;;
+  wrap) LINK="@$P/src/myth-ld.opts -L$P/src/.libs -lmyth-ld -lpthread -ldl"; LSUB="" ;;
+  *)    LINK="-L$P/src/.libs -lmyth -lpthread -ldl"; LSUB="" ;;
+esac
+$cc -O2 -g -I$P/include -I$P/src $demo -o /tmp/cs-$id-demo $LINK 2>/tmp/cs-$id-cc.log || { echo "CONFIRM $id demo-build-failed"; exit 2; }
 fp=0; fu=0
 for i in $(seq 1 $runs); do
-  MYTH_BIND_WORKERS=0 MYTH_NUM_WORKERS=$nw LD_LIBRARY_PATH=$P/src/.libs timeout 300 /tmp/cs-$id-demo "$@" >/dev/null 2>&1 || fp=$((fp+1))
-  MYTH_BIND_WORKERS=0 MYTH_NUM_WORKERS=$nw LD_LIBRARY_PATH=$U/src/.libs timeout 300 /tmp/cs-$id-demo "$@" >/dev/null 2>&1 || fu=$((fu+1))
+  lp=$P/src/.libs; lu=$U/src/.libs
+  [ -n "$LSUB" ] && { lp=$P/src/profiler/.libs:$lp; lu=$U/src/profiler/.libs:$lu; }
+  env MYTH_BIND_WORKERS=0 MYTH_NUM_WORKERS=$nw ${CS_ENV:-} LD_LIBRARY_PATH=$lp timeout 300 /tmp/cs-$id-demo "$@" >/dev/null 2>&1 || fp=$((fp+1))
+  env MYTH_BIND_WORKERS=0 MYTH_NUM_WORKERS=$nw ${CS_ENV:-} LD_LIBRARY_PATH=$lu timeout 300 /tmp/cs-$id-demo "$@" >/dev/null 2>&1 || fu=$((fu+1))
 done
-echo "CONFIRM $id make-check-pass=$pass demo-fails-with-patch=$fp/$runs demo-fails-without-patch=$fu/$runs (workers=$nw args=$*)"
+echo "CONFIRM $id make-check-pass=$pass demo-fails-with-patch=$fp/$runs demo-fails-without-patch=$fu/$runs (workers=$nw args=$* link=${CS_LINK:-myth} env=${CS_ENV:-})"
 rm -f /tmp/cs-$id-demo
